@@ -1021,6 +1021,9 @@ def make_inliner(repo: Repo, targets: dict[str, FunctionInfo] | None = None,
             ev.res.calls.append(cl)
         for lp in r.loops:
             ev.res.loops.append(lp)
+        # a guard that rejects inside the callee rejects the caller's call as well
+        for rz in r.raises:
+            ev.res.raises.append(rz)
         ev.res.inlined = getattr(ev.res, "inlined", [])
         ev.res.inlined.append((callee, r, t))
         ev.res.inlined.extend(getattr(r, "inlined", []))
